@@ -119,6 +119,7 @@ def run(ctx):
     thorough = ctx.tier == "thorough"
     K = 16 if thorough else 4
     ctx.mc("MC_FaceTopology", "MC_FaceTopology_quick.cfg")
+    ctx.mc("MC_FaceAssemble", "MC_FaceAssemble_2x1.cfg" if thorough else "MC_FaceAssemble_1x2.cfg")
     rng = random.Random(ctx.seed * 334214459 + 12)
     from ..core import setup_import_path
 
